@@ -106,6 +106,15 @@ def run(res, tier, seed):
     for pz in ("seqz", "snez", "sltz", "sgtz", "neg", "not", "mv"):
         for k_ in (-5, 0, 7, -2147483648):
             const_files.append(f"main:\n    li t0, {k_}\n    {pz} t1, t0\n    addi a7, t1, 1\n    li a0, 42\n    ecall\n    li a7, 10\n    ecall\n")
+    # constants that only `lui` can build (seed C13-r shifted them twice in the value analysis): a frame of
+    # k*4096 bytes opened with addi steps and closed with `li`/`add`, and an environment-call number derived
+    # from such a constant
+    for k_ in (1, 2, 3):
+        opens = "".join("    addi sp, sp, -2048\n" for _ in range(2 * k_))
+        const_files.append(f"main:\n    li a0, 1\n    jal f\n    li a7, 10\n    ecall\nf:\n{opens}    sw ra, 0(sp)\n"
+                           f"    lw ra, 0(sp)\n    li t0, {4096 * k_}\n    add sp, sp, t0\n    ret\n")
+        const_files.append(f"main:\n    li t0, {4096 * k_}\n    srli t1, t0, 12\n    addi a7, t1, {10 - k_}\n    li a0, 0\n    ecall\n")
+        const_files.append(f"main:\n    li t0, -{4096 * k_}\n    srai t1, t0, 12\n    addi a7, t1, {10 + k_}\n    li a0, 0\n    ecall\n")
     base += const_files
     pairs = []
     for s in base:
